@@ -113,6 +113,18 @@ def l_file_type (m : LMetadata) : EntryKind := m.kind
 def l_is_symlink (k : EntryKind) : Bool := k == .symlink
 /-- `v[i]` behind a length test (`default` stands for the out-of-bounds panic) -/
 def index [Inhabited α] (l : List α) (i : Nat) : α := l.getD i default
+/-- `&l[lo..hi]`.  Rust panics when `lo > hi` or `hi > l.len()`; totalised here — the translated code guards every use,
+    and the bridge theorems show the guards (unit Delta) -/
+def slice (l : List α) (lo hi : Nat) : List α := (l.drop lo).take (hi - lo)
+/-- `&l[lo..]` (Rust panics when `lo > l.len()`) -/
+def slice_from (l : List α) (lo : Nat) : List α := l.drop lo
+/-- `l.drain(lo..hi)` as a statement: what stays in `l` -/
+def drain_range (l : List α) (lo hi : Nat) : List α := l.take lo ++ l.drop hi
+/-- `m.entry(k).or_default().push(v)` for a `HashMap<K, Vec<V>>`: append to the key's bucket, creating it when absent -/
+def entry_push [BEq κ] (m : List (κ × List ν)) (k : κ) (v : ν) : List (κ × List ν) :=
+  if m.any (fun p => p.1 == k) then m.map (fun p => if p.1 == k then (p.1, p.2 ++ [v]) else p) else m ++ [(k, [v])]
+/-- `Xxh3::new()`: a streaming hasher is the list of the bytes fed so far (`update` appends, `digest` is an operation of `Ext`) -/
+def xxh3_new : List Nat := []
 /-- `std::io::SeekFrom` -/
 inductive SeekFrom where
   | Start (n : Nat) | End (n : Int) | Current (n : Int)
